@@ -5,13 +5,13 @@ import glob, json, os
 V = os.path.dirname(os.path.dirname(os.path.abspath(__file__)))
 P = {
  "C01": ("model_checking", "bounded exhaustive input enumeration vs digit-loop reference model",
-         "Exhaustive enumeration of five structured sub-spaces of the 64-bit index space (all 2^19 headers, all 8^6 digit windows at every offset/resolution, <=3-digit deviations, complete 4^15 reduced-alphabet products, complete small-resolution counts) on the real isValidCell, each value compared with a digit-loop transcription of the documented layout; plus a closure driver that runs every cell-producing API entry point from every cell of FULL(0..2/3) and the pentagon/seam families at all 16 resolutions and checks each output cell.",
+         "Exhaustive enumeration of five structured sub-spaces of the 64-bit index space (all 2^19 headers, all 8^6 digit windows at every offset/resolution, <=3-digit deviations, complete 4^15 reduced-alphabet products, complete small-resolution counts) on the real isValidCell, each value compared with a digit-loop transcription of the documented layout; plus a closure driver that runs every cell-producing API entry point (with in-range, boundary and out-of-range scalar arguments) from every cell of FULL(0..2/3) and the pentagon/seam/polar families at all 16 resolutions and checks each output cell, and checks that every value of the hostile index alphabet that the library itself accepts as a directed edge or vertex decodes to valid cells.",
          "2^64 is not enumerated; the spec transcription in src/spec.h is trusted.", "4-C01"),
  "C02": ("model_checking", "bounded exhaustive probe-lattice enumeration vs gnomonic-chart containment oracle",
          "Every probe of a fixed lattice (every edge/corner of every cell of complete coarse resolutions and of the pentagon/seam/face-centre families at all 16 resolutions, offsets 1e-1..1e-13 inside/on/outside) is sent through latLngToCell and the returned cell's boundary must contain it within the property's own tolerance; special points and argument classes are enumerated completely.",
          "Oracle geometry (local gnomonic chart, winding number) and libm are trusted; points outside the lattice are not explored.", "4-C02"),
  "C03": ("model_checking", "complete enumeration of coarse resolutions and families vs closed-form counts",
-         "Round trip cell->centre->cell for every cell of complete resolutions (0..5 quick, 0..7 thorough) and all families at all resolutions; counts, pentagon sets and res-0 sets compared with the spec enumerator.",
+         "Round trip cell->centre->cell for every cell of complete resolutions (0..5 quick, 0..7 thorough) and all families at all resolutions; counts, pentagon sets and res-0 sets compared with the spec enumerator; census of all 128*8^r index values (r<=5/6) and of all one-/two-digit deviations at every resolution: isValidCell accepts exactly 2+120*7^r values and each accepted value round-trips.",
          "Interior cells of resolutions >= 8 outside the families are not enumerated.", "4-C03"),
  "C04": ("model_checking", "bounded exhaustive enumeration vs spec odometer",
          "cellToChildren/Size/CenterChild/Parent compared element for element with an independent digit odometer for every parent of complete coarse resolutions and the families, at every child resolution that can be enumerated; partition checked by concatenation.",
@@ -20,16 +20,16 @@ P = {
          "Every origin of complete coarse resolutions x every k up to the stated bound, and every origin of the fine families with small k, through all seven gridDisk-family functions and areNeighborCells, compared with BFS on a neighbour graph derived from cell boundaries and latLngToCell only (no traversal table).",
          "G_geo is built from the point<->cell<->boundary pipeline, itself judged by C02/C03/C08.", "4-C05"),
  "C06": ("model_checking", "exhaustive subsets x permutations vs reference set compaction",
-         "All subsets x all permutations of sibling groups, all 5^7 two-level states x orders, sub-trees minus one cell, disks, error inputs, through compactCells/uncompactCells/uncompactCellsSize, compared with a sort-and-merge reference compaction.",
+         "All subsets x all permutations of sibling groups, all 5^7 two-level states x orders, sub-trees minus one cell, disks, error inputs, through compactCells/uncompactCells/uncompactCellsSize, compared with a sort-and-merge reference compaction; uncompact sizes of compact two-cell sets at every depth 0..15-res against closed-form counts.",
          "Sets outside the catalogue (sizes, shapes) are not explored.", "4-C06"),
  "C07": ("model_checking", "exhaustive polygon catalogue x candidate cells vs point-in-polygon",
          "Every polygon of a catalogue (shapes x anchors x scales x resolutions) through both polyfill algorithms; every candidate cell near the polygon judged by an independent crossing-number test with an undecided band.",
          "Polygons outside the catalogue are not explored; centres within 1e-9 rad of an edge are undecided.", "4-C07"),
  "C08": ("model_checking", "complete enumeration vs shared-stretch coincidence and spherical area",
-         "Every cell of complete coarse resolutions and of the families: vertex counts, orientation, shared stretches with each geometric neighbour coincide reversed, areas equal the fan area, sum to 4 pi.",
+         "Every cell of complete coarse resolutions and of the families: vertex counts, orientation, shared stretches with each geometric neighbour coincide reversed, areas equal the fan area, sum to 4 pi; the same oracle over a scrambled list mixing all resolutions and cell classes, and bare call sequences across resolutions compared with a resolution-by-resolution pass (results must not depend on call history).",
          "GEO formulas and libm trusted.", "4-C08"),
  "C09": ("model_checking", "all ordered pairs of complete resolutions vs BFS distance",
-         "gridDistance and local IJ round trips for all ordered pairs of complete coarse resolutions and radius-bounded balls in the families, compared with BFS distance on G_geo.",
+         "gridDistance and local IJ round trips for all ordered pairs of complete coarse resolutions and radius-bounded balls in the families, compared with BFS distance on G_geo; ij->cell->ij squares from every origin of the complete resolutions; extreme IJ incl. the int32 wrap points k*2^31/7; mixed-resolution pairs over all base cells.",
          "Distances beyond the stated radii at fine resolutions are not explored.", "4-C09"),
  "C10": ("model_checking", "complete enumeration vs G_geo adjacency and shared stretch",
          "Every (cell, neighbour) and near non-neighbour pair of complete coarse resolutions and the families; every candidate edge index over modes x reserved bits.",
@@ -38,22 +38,22 @@ P = {
          "Every (cell, vertex) of complete coarse resolutions and the families; canonical-form check of every candidate vertex index; global count identity.",
          "G_geo trusted as for C05.", "4-C11"),
  "C12": ("model_checking", "exhaustive argument-alphabet products under ASan/UBSan with live internal assertions",
-         "Every exported function over the product of finite hostile argument alphabets (index alphabet, INTS, DBLS), malformed aggregates and depth-bounded call sequences, on an ASan+UBSan build without NDEBUG.",
+         "Every exported function over the product of finite hostile argument alphabets (index alphabet, INTS, DBLS), malformed aggregates (degenerate polygons, polar/global cell sets, polygon fills into ASan-exact buffers smaller than the result) and depth-bounded call sequences, on an ASan+UBSan build without NDEBUG.",
          "Argument values outside the alphabets are not explored; sanitizers are the oracle for memory safety.", "4-C12"),
  "C13": ("model_checking", "bounded exhaustive enumeration vs lexicographic rank by counting",
          "Every (parent, child resolution, position) for complete coarse parents and structured positions to depth 15, compared with an independent rank/unrank by counting.",
          "spec.h rank trusted (cross-checked against the odometer at start-up).", "4-C13"),
  "C14": ("model_checking", "all ordered pairs of complete resolutions vs G_geo adjacency",
-         "Every path gridPathCells returns for all ordered pairs of complete coarse resolutions, balls in the families and long fine-resolution paths: end points, G_geo adjacency of consecutive cells, announced length.",
+         "Every path gridPathCells returns for all ordered pairs of complete coarse resolutions, balls in the families, long fine-resolution paths and long skew straight lines (to 2 800 cells) from origins with local coordinates up to 1.4e6 at res 13-15: end points, G_geo adjacency of consecutive cells, announced length.",
          "G_geo trusted as for C05.", "4-C14"),
  "C15": ("model_checking", "exhaustive polygon catalogue x modes x capacities vs three-valued planar relation",
-         "Every polygon of the catalogue x four containment modes x capacities x flag values; every candidate cell judged by a three-valued lat/lng-plane relation; exact nesting and bound checks.",
+         "Every polygon of the catalogue (all 16 resolutions in both tiers) plus cell-derived corner-tip polygons x four containment modes x capacities x flag values; every candidate cell judged by a three-valued lat/lng-plane relation; exact nesting and bound checks.",
          "Polygons outside the catalogue not explored; undecided band reported.", "4-C15"),
  "C16": ("model_checking", "exhaustive cell-set catalogue vs components/area/vertex-membership oracle",
-         "Every set of a catalogue (disks, holes, islands, components) at all 16 resolutions through cellsToLinkedMultiPolygon; component count on G_geo, loop orientation, vertex membership, area balance, allocator ledger.",
+         "Every set of a catalogue (disks, holes, islands, components) at all 16 resolutions through cellsToLinkedMultiPolygon; component count on G_geo, loop orientation, vertex membership, per-component loop ownership and area balance, allocator ledger; polar sets and sets with a planted non-cell under a ledger-only oracle (error clause).",
          "Sets outside the catalogue not explored.", "4-C16"),
  "C17": ("fault_enumeration", "exhaustive allocation-failure enumeration (every index, pairs) with ledger allocator",
-         "For every input of the alphabet, every allocation index is failed in turn (single, persistent, pairs) on the real code through the library's own H3_ALLOC_PREFIX seam; the ledger allocator decides leaks/double frees and the result code.",
+         "For every input of the alphabet (disks from valid and invalid origins, neighbour pairs, single- and multi-base-cell compactions, catalogue and degenerate polygons in all modes, sufficient and insufficient capacities), every allocation index is failed in turn (single, persistent, pairs) on the real code through the library's own H3_ALLOC_PREFIX seam; the ledger allocator decides leaks/double frees and the result code.",
          "Inputs outside the alphabet not explored.", "4-C17"),
  "C18": ("model_checking", "stateless preemption-bounded schedule enumeration on real threads (cooperative scheduler, function-entry granularity) + write-trap on library static storage + history pairs; supporting free-running ThreadSanitizer pass",
          "Three binaries from /repo's working tree. (1) write-trap: the library's .data/.bss are renamed, page-bracketed and mprotect(PROT_READ)-ed while a broad product of workloads covering every exported function runs: any write to library-owned static storage is a violation. (2) scheduler: library compiled with -finstrument-functions; every library function entry and allocator call is a scheduling point; stateless DFS over ALL schedules with <=1 preemption of every pair of a 58-call alphabet at fine granularity (covers every state and transition of the product of the two point sequences), <=2 at API/allocator granularity and for small pairs at fine granularity, core triples on three threads, and allocation-fault x schedule; every execution runs to completion on the real code and each thread's serialised outputs must be byte-identical to the sequential reference; library static storage is hashed at every choice point; the ledger must be empty. (3) history: all ordered call pairs, q after p == q in a fresh process, with heap/stack poisoning. (4) supporting: free-running threads under ThreadSanitizer; undefined symbols vs a deny-list of non-re-entrant libc functions.",
@@ -62,7 +62,7 @@ P = {
          "Every cell of complete coarse resolutions, the families and two rings around all icosahedron edges: reported faces between must and may sets derived from nearest face centre of sample points.",
          "Face-centre table cross-checked against geometry at start-up.", "4-C19"),
  "C20": ("model_checking", "bounded exhaustive value/buffer/string enumeration vs formatting reference",
-         "All values with <=3 bits set, all 16-bit patterns at 4 offsets, boundary values, real indexes x buffer sizes 0..32 with guard bytes; all byte strings of length <=3 over a 16-byte alphabet for parsing.",
+         "All values with <=3 bits set, all 16-bit patterns at 4 offsets, boundary values, real indexes x buffer sizes 0..32 with guard bytes; all byte strings of length <=3 over a 16-byte alphabet for parsing; arbitrary caller errno and failing parses before every parse.",
          "Values outside the structured sets not enumerated.", "4-C20"),
 }
 checks, na = [], []
